@@ -125,6 +125,21 @@ pub fn run(ctx: &Ctx) -> Report {
             }
             record(&mut rep, &case, discs);
         }
+        if prop == "C10" {
+            // staking queries against the committed raw state (discrepancies tagged C10 by the staking engine)
+            let n = ctx.scale(240, 16 * 4000) / ctx.workers as u64;
+            for _ in 0..n.max(1) {
+                if ctx.expired() {
+                    break;
+                }
+                let len = rng.range(20, 50) as usize;
+                let (case, fails) = crate::engines::e4_staking::run_random(&mut rng, len, crate::engines::e4_staking::Mix::RewardHeavy, false, &mut rep);
+                rep.bump("e1/staking_query_histories");
+                for (p, sig, detail) in fails {
+                    rep.violate(&p, sig, detail.clone(), json!({"engine": "e4_staking", "case": case, "with_twin": false, "first_discrepancy": detail}));
+                }
+            }
+        }
         if prop == "C01" || prop == "C10" {
             // trees with staking / distribution / ibc / gov messages: model-free invariants only
             let n = ctx.scale(240, 16 * 3000) / ctx.workers as u64;
@@ -167,7 +182,7 @@ pub fn run(ctx: &Ctx) -> Report {
         "C04" => vec!["e1/data/data-overridden-by-reply".into(), "e1/data/reply-without-data-keeps-previous".into(), "e1/data/submsg-data-dropped-without-reply".into(), "e1/data/execute-no-data".into(), "e1/data/instantiate-no-data".into(), "e1/responses/events_compared".into(), "e1/entry/Migrate".into(), "e1/entry/Sudo".into()],
         "C05" => vec!["e1/entries_with_funds".into(), "e1/failure/Overdraft/propagated".into(), "e1/entry/Instantiate".into(), "e1/entry/Reply".into(), "e1/entry/Sudo".into(), "e1/entry/Migrate".into(), "e1/block_changes".into()],
         "C08" => vec!["e1/accessors/contracts_compared".into(), "e1/accessors/raw_queries_compared".into(), "e1/state/contract_storages_compared".into()],
-        "C10" => vec!["e1/purity/queries_issued_twice".into(), "e1/purity/storage_unchanged_checks".into(), "e1/trace/probes_compared".into()],
+        "C10" => vec!["e1/purity/queries_issued_twice".into(), "e1/purity/storage_unchanged_checks".into(), "e1/trace/probes_compared".into(), "e1/staking_query_histories".into(), "stk/pending_vs_raw_state_checked".into()],
         "C11" => vec!["e1/registry/store_code/auto".into(), "e1/registry/store_code/chosen".into(), "e1/registry/duplicate_code/valid".into(), "e1/failure/DuplicateAddress/top-level".into(), "e1/failure/EmptyLabel/propagated".into(), "e1/failure/NoSuchCode/propagated".into(), "e1/accessors/code_info_compared".into()],
         "C12" => vec!["e1/failure/NotAdmin/propagated".into(), "e1/entry/Migrate".into()],
         "C13" => vec!["e1/failure/BadAttribute/propagated".into(), "e1/failure/BadAttribute/caught".into(), "e1/attr_and_event_strings".into()],
@@ -181,6 +196,9 @@ pub fn run(ctx: &Ctx) -> Report {
 
 pub fn replay(ctx: &Ctx, w: &Value) -> Report {
     let mut rep = Report::new();
+    if w["engine"] == "e4_staking" {
+        return crate::props::staking_replay(ctx, w);
+    }
     let case: Case = serde_json::from_value(w["case"].clone()).expect("case");
     let discs = if w["engine"] == "e1_opaque" { replay_opaque(&case, &mut rep) } else { run_case(&case, &mut rep, &ctx.prop) };
     record(&mut rep, &case, discs);
